@@ -344,6 +344,19 @@ func (c *Ctx) ruleRangeCount() {
 			}
 			seen[v] = true
 			switch x := v.(type) {
+			case *ssa.Call:
+				// the maximum computed by a helper from the request (extract-function form)
+				if cal := x.Call.StaticCallee(); cal != nil && cal.Pkg == f.Pkg && !x.Call.IsInvoke() {
+					for _, r := range returnsOf(cal) {
+						for _, res := range r.Results {
+							for w := range backwardSlice(res, nil) {
+								if k, ok := constInt(w); ok && k == 128 {
+									maxV = x
+								}
+							}
+						}
+					}
+				}
 			case *ssa.Phi:
 				for _, e := range x.Edges {
 					if k, ok := constInt(e); ok && k == 128 {
